@@ -864,3 +864,43 @@ Proof.
     { rewrite flat_name_short by assumption. rewrite join_snoc2 by discriminate. rewrite <- app_assoc. reflexivity. }
     rewrite E2, strip_prefix_app. reflexivity.
 Qed.
+
+(* ------------------------------------------------------------------ non-vacuity of the guarded statements *)
+Definition ex_tree : group :=
+  G [] [s "x"] [(s "x", 1)]
+    [G (s "g") [] [] [G (s "k") [] [(s "x", 1)] []];
+     G (s "h") [s "y"] [(s "x", 1)] [G (s "m") [] [(s "q", 1)] []]].
+
+(* lateral: from /h/m the name x is found neither in /h/m nor (apex = root) above; the descent
+   from the root finds /h/x on the first level although /g/k/x comes first depth-first *)
+Example lateral_nonvacuous :
+  prox ex_tree false (s "x") [s "m"; s "h"] false true = Some [s "h"] /\
+  prox ex_tree false (s "y") [s "m"; s "h"] false true = None.
+Proof. split; reflexivity. Qed.
+
+Example lookup_unshadowed_nonvacuous :
+  nc_lookup_dim ex_tree (rev [s "h"; s "m"]) (s "x") = Some [] /\
+  nc_lookup_dim ex_tree (rev [s "h"; s "m"]) (s "y") = Some [s "h"].
+Proof. split; reflexivity. Qed.
+
+Example visible_nonvacuous :
+  dims_visible true (name_of [s "g1"; s "g2"] (s "ta"))
+     (map (fun d => name_of (fst d) (snd d)) [([], s "x"); ([s "g1"], s "y")]) = true /\
+  dims_visible true (name_of [s "g1"; s "g2b"] (s "ta"))
+     (map (fun d => name_of (fst d) (snd d)) [([s "g1"; s "g2"], s "x")]) = false.
+Proof. split; reflexivity. Qed.
+
+Example groups_roundtrip_nonvacuous :
+  nc_set_groups [s "forecast"; s "model"] (s "/old/ta") = Some (s "/forecast/model/ta") /\
+  nc_groups (s "/forecast/model/ta") = [s "forecast"; s "model"] /\
+  nc_set_groups [] (s "/old/ta") = Some (s "ta").
+Proof. splits; reflexivity. Qed.
+
+Example unflatten_nonvacuous :
+  unflatten_var (flat_name (fun x => x) [s "forecast"; s "model"] (s "ta")) (pathname [s "forecast"; s "model"] (s "ta"))
+  = ([s "forecast"; s "model"], s "/forecast/model/ta", s "ta").
+Proof. reflexivity. Qed.
+
+Example relative_nonvacuous :
+  no_up (join [slash] ([s "b"] ++ [s "y"])) /\ free slash ([s "b"] ++ [s "y"]).
+Proof. split; [apply no_up_join; [reflexivity|discriminate]|repeat constructor]. Qed.
